@@ -997,7 +997,6 @@ func c33GenItems(r *Rand, v c33OVar) []string {
 
 // c33GenProg generates a command list, tracking bash's semantics with the oracle so that the
 // documented exclusions can be applied exactly (see props/C33.notes.md):
-//   * `x[i]+=v` only while x is unset                     (finding C33-elem-append)
 //   * out-of-range negative `x[i]=v` only at top level     (bash aborts the enclosing function /
 //     subshell on an assignment error; error handling, not array semantics)
 //   * reads only on arrays and unset variables, `${!x[@]}` only on arrays, `${x[-n]}` only in
@@ -1067,11 +1066,16 @@ func c33GenProg(r *Rand, thorough bool) ([]c33Cmd, []string) {
 				emit(c33Cmd{x: x, kind: "se", i: i, v: r.Pick(c33ProgVals)})
 				tagset["op:set"] = true
 			case k < 52:
-				if v.kind != 0 {
-					continue // finding C33-elem-append
+				i := c33GenIndex(r, *v, true)
+				if inBlk == "" && v.kind == 2 && r.Chance(4) {
+					i = -(v.max() + 2) - r.Intn(3) // out of range: both shells report and go on
+					tagset["neg-out-of-range-set"] = true
 				}
-				emit(c33Cmd{x: x, kind: "ae", i: r.Intn(5), v: r.Pick(c33ProgVals)})
-				tagset["op:elem-append-on-unset"] = true
+				if i < 0 {
+					tagset["neg-index"] = true
+				}
+				emit(c33Cmd{x: x, kind: "ae", i: i, v: r.Pick(c33ProgVals)})
+				tagset["op:elem-append"] = true
 			case k < 58:
 				if v.kind == 0 && !r.Chance(20) {
 					continue // would make a scalar; keep that rare
